@@ -1,6 +1,6 @@
 //! C05 — a CPC sketch's state is exactly the set of distinct (row, column) coupons seen.
 
-use datasketches::cpc::CpcSketch;
+use datasketches::cpc::{CpcSketch, CpcUnion};
 use datasketches::verif::CpcState;
 
 use crate::model::cpc::{self as m, CpcModel};
@@ -171,8 +171,41 @@ struct Trace {
     last_table_lg: u8,
 }
 
+/// A sketch that came out of a union no longer maintains KxP / HIP (its estimate is ICON): those two recurrences are
+/// compared only while the sketch has an unbroken history of its own (`own_history`).
+fn observe_h(ctx: &mut Ctx, sk: &CpcSketch, model: &CpcModel, tr: &mut Trace, what: &str, own_history: bool) {
+    let hip = if own_history { Some((model.kxp, model.hip, model.kxp_scale, model.hip_slack)) } else { None };
+    check_cpc_state(ctx, sk, &model.matrix, hip, what);
+    observe_rest(ctx, sk, model, tr);
+}
+
+/// The state must survive being written and read back, and being passed through a union, at this very coupon count
+/// (the choice of the image form and of the union's path both depend on thresholds in C).
+fn trial_copies(ctx: &mut Ctx, sk: &CpcSketch, model: &CpcModel, seed: u64, what: &str) -> (Option<CpcSketch>, Option<CpcSketch>) {
+    let revived = match CpcSketch::deserialize_with_seed(&sk.serialize(), seed) {
+        Ok(d) => {
+            check_cpc_state(ctx, &d, &model.matrix, None, &format!("{} (after serialize/deserialize)", what));
+            Some(d)
+        }
+        Err(e) => {
+            ctx.violation("a sketch's own image does not deserialize", format!("{} lg_k={} C={}: {}", what, model.lg_k, model.num_coupons, e));
+            None
+        }
+    };
+    let mut u = CpcUnion::with_seed(model.lg_k, seed);
+    u.update(sk);
+    let r = u.to_sketch();
+    check_cpc_state(ctx, &r, &model.matrix, None, &format!("{} (through a union)", what));
+    ctx.cover("trial_round_trip_and_union");
+    (revived, Some(r))
+}
+
 fn observe(ctx: &mut Ctx, sk: &CpcSketch, model: &CpcModel, tr: &mut Trace, what: &str) {
     check_cpc_state(ctx, sk, &model.matrix, Some((model.kxp, model.hip, model.kxp_scale, model.hip_slack)), what);
+    observe_rest(ctx, sk, model, tr);
+}
+
+fn observe_rest(ctx: &mut Ctx, sk: &CpcSketch, model: &CpcModel, tr: &mut Trace) {
     let st_off = model.offset;
     if st_off != tr.last_offset {
         ctx.cover(&format!("offset_{:02}", st_off));
@@ -259,6 +292,7 @@ fn hook_case(ctx: &mut Ctx, case: &Json) {
     let mut sk = CpcSketch::new(lg_k);
     let mut model = CpcModel::new(lg_k);
     let mut tr = Trace { last_offset: 0, last_flavor: 0, last_table_lg: 0 };
+    let mut own_history = true;
     observe(ctx, &sk, &model, &mut tr, "fresh");
     for (i, &rc) in order.iter().enumerate() {
         let before_off = model.offset;
@@ -277,10 +311,30 @@ fn hook_case(ctx: &mut Ctx, case: &Json) {
         }
         let changed = model.offset != before_off || m::flavor(lg_k, model.num_coupons) != before_fl;
         if novel && (changed || (i as u64) % stride == 0) {
-            observe(ctx, &sk, &model, &mut tr, &format!("hook op {} rc={:x}", i, rc));
+            observe_h(ctx, &sk, &model, &mut tr, &format!("hook op {} rc={:x}", i, rc), own_history);
+        }
+        if novel && (changed || rng.chance(2.0 / order.len().max(1) as f64)) && lg_k <= 12 {
+            let (revived, merged) = trial_copies(ctx, &sk, &model, 9001, &format!("hook op {}", i));
+            // now and then the history continues on the revived copy, or on the union's result
+            match rng.below(8) {
+                0 => {
+                    if let Some(d) = revived {
+                        sk = d;
+                        ctx.cover("continued_on_revived_sketch");
+                    }
+                }
+                1 => {
+                    if let Some(r) = merged {
+                        sk = r;
+                        own_history = false;
+                        ctx.cover("continued_on_union_result");
+                    }
+                }
+                _ => {}
+            }
         }
     }
-    observe(ctx, &sk, &model, &mut tr, "end");
+    observe_h(ctx, &sk, &model, &mut tr, "end", own_history);
     ctx.cover_n("kxp_refreshes", model.refreshes as u64);
     ctx.cover(&format!("hook_lg_k_{}", lg_k));
     let mut fp = Fp::new();
@@ -307,7 +361,22 @@ fn public_case(ctx: &mut Ctx, case: &Json) {
     let mut tr = Trace { last_offset: 0, last_flavor: 0, last_table_lg: 0 };
     let salt = rng.next_u64();
     let domain = rng.range(n / 2 + 1, n * 2);
+    let mut own_history = true;
     for i in 0..n {
+        // checkpoint / restore with the configured seed: of the empty sketch, and now and then later on
+        if (i == 0 && rng.chance(0.5)) || rng.chance(2.0 / n.max(1) as f64) {
+            let (revived, merged) = trial_copies(ctx, &sk, &model, seed, &format!("public op {} seed {}", i, seed));
+            if rng.chance(0.8) {
+                if let Some(d) = revived {
+                    sk = d;
+                    ctx.cover("continued_on_revived_sketch");
+                }
+            } else if let Some(r) = merged {
+                sk = r;
+                own_history = false;
+                ctx.cover("continued_on_union_result");
+            }
+        }
         let x = rng.below(domain);
         let rc = match rng.below(5) {
             0 => {
@@ -342,10 +411,10 @@ fn public_case(ctx: &mut Ctx, case: &Json) {
         let novel = model.offer(rc);
         let changed = model.offset != before_off || m::flavor(lg_k, model.num_coupons) != before_fl;
         if novel && (changed || i % stride == 0) {
-            observe(ctx, &sk, &model, &mut tr, &format!("public op {} seed {}", i, seed));
+            observe_h(ctx, &sk, &model, &mut tr, &format!("public op {} seed {}", i, seed), own_history);
         }
     }
-    observe(ctx, &sk, &model, &mut tr, "public end");
+    observe_h(ctx, &sk, &model, &mut tr, "public end", own_history);
     ctx.cover(&format!("public_lg_k_{}", lg_k));
     let mut fp = Fp::new();
     fp.u64(lg_k as u64);
